@@ -30,6 +30,33 @@ def showEv : Ev → String
 
 def showB (b : B) : String := s!"{b.nOps}/{b.allocOps} {b.nSt}/{b.allocSt}"
 
+def siteOf (kind : String) (x y : Nat) : Option (List Ev) :=
+  if kind == "scalarCtor" then some (siteActiveCtor x)
+  else if kind == "scalarAssign" then some (siteActiveAssign x)
+  else if kind == "refAssign" then some (siteActiveRefAssign x)
+  else if kind == "copy1" then some siteActiveCopy1
+  else if kind == "copy2" then some siteActiveCopy2
+  else if kind == "stackAddDep" then some (siteStackAddDep x)
+  else if kind == "stackAppendDep" then some (siteStackAppendDep x)
+  else if kind == "arrayAssign" then some (siteArrayAssignArray x y)
+  else if kind == "fixedAssign" then some (siteArrayAssignFixed x y)
+  else if kind == "specialAssign" then some (siteArrayAssignSpecial x y)
+  else if kind == "arrayFromScalar" then some (siteArrayFromScalarArray x)
+  else if kind == "fixedFromScalar" then some (siteArrayFromScalarFixed x)
+  else if kind == "conditional" then some (siteConditionalArray x (List.replicate y true))
+  else none
+
+def siteKinds : List String :=
+  ["scalarCtor", "scalarAssign", "refAssign", "copy1", "copy2", "stackAddDep", "stackAppendDep", "arrayAssign",
+   "fixedAssign", "specialAssign", "arrayFromScalar", "fixedFromScalar", "conditional"]
+
+/-- smallest sizes (x ≤ 4, y ≤ 8) and adversarial start from which the site, as regenerated, writes out of range -/
+def searchSite (kind : String) : Option (Nat × Nat × Nat × Nat) :=
+  (List.range (if kind == "stackAddDep" || kind == "stackAppendDep" then 2 else 5)).findSome? fun x => (List.range 9).findSome? fun y =>
+    match siteOf kind x y with
+    | some es => (findAdversary es 4).map fun (l, p) => (x, y, l, p)
+    | none => none
+
 def step (_ : Unit) (ws : List String) : Unit × String :=
   match ws with
   | "run" :: len :: pad :: evs =>
@@ -48,23 +75,15 @@ def step (_ : Unit) (ws : List String) : Unit × String :=
   | ["site", kind, x, y] =>
     match x.toNat?, y.toNat? with
     | some x, some y =>
-      let es : Option (List Ev) :=
-        if kind == "scalarCtor" then some (siteActiveCtor x)
-        else if kind == "scalarAssign" then some (siteActiveAssign x)
-        else if kind == "refAssign" then some (siteActiveRefAssign x)
-        else if kind == "copy1" then some siteActiveCopy1
-        else if kind == "copy2" then some siteActiveCopy2
-        else if kind == "stackAddDep" then some (siteStackAddDep x)
-        else if kind == "stackAppendDep" then some (siteStackAppendDep x)
-        else if kind == "arrayAssign" then some (siteArrayAssignArray x y)
-        else if kind == "fixedAssign" then some (siteArrayAssignFixed x y)
-        else if kind == "arrayFromScalar" then some (siteArrayFromScalarArray x)
-        else if kind == "fixedFromScalar" then some (siteArrayFromScalarFixed x)
-        else none
+      let es : Option (List Ev) := siteOf kind x y
       match es with
       | some es => ((), String.intercalate " " (es.map showEv))
       | none => ((), "bad-op")
     | _, _ => ((), "bad-op")
+  | ["search"] =>
+    let rs := siteKinds.filterMap fun k => (searchSite k).map fun (x, y, l, p) =>
+      s!"{k}:x={x},y={y},len={l},pad={p}"
+    ((), "search " ++ String.intercalate " " rs)
   | "judge" :: evs =>
     match parseEvs evs with
     | some es =>
